@@ -266,6 +266,7 @@ Inductive sop : Type :=
 | SCreateW (dl ls : option Z)               (* create_datawriter, deadline / lifespan in ns *)
 | SWrite (w : nat) (key : Z) (ts : option Z) (* write / write_w_timestamp(ts ns) *)
 | SAdv (dt : Z)                              (* the clock advances, timers fire *)
+| SOdm (w : nat)                             (* get_offered_deadline_missed_status *)
 | SQuery.                                    (* an API call that changes nothing *)
 
 Definition dur_of_ns (n : Z) : dur := dur_new (wrap_i32 (n / NS)) (wrap_u32 (n mod NS)).
@@ -300,11 +301,17 @@ Fixpoint adv_loop (fuel : nat) (target : Z) (s : sstate) : sstate * list (Z * re
    (= number of delays it requested), part of the schedule.  An API call's mail is
    handled in the last iteration (the earlier ones serve get_current_time etc.). *)
 Definition ADV_FUEL : nat := 4000.
-Definition step (s : sstate) (o : sop) (k : nat) : sstate * list (Z * res Z) :=
+(* the reply of the mail (read when the mail is handled, before the checks of that iteration) *)
+Definition reply_of (o : sop) (s : sstate) : Z :=
   match o with
-  | SAdv dt => adv_loop ADV_FUEL (ss_now s + dt) s
+  | SOdm w => sw_odm (nth w (ss_writers s) (mkSW None None [] [] 0))
+  | _ => 0
+  end.
+Definition step (s : sstate) (o : sop) (k : nat) : sstate * list (Z * res Z) * Z :=
+  match o with
+  | SAdv dt => (adv_loop ADV_FUEL (ss_now s + dt) s, 0)
   | _ => let '(s1, l1) := bodies (pred k) s in
-         let '(s2, l2) := bodies (Nat.min k 1) (apply_mail o s1) in (s2, l1 ++ l2)
+         let '(s2, l2) := bodies (Nat.min k 1) (apply_mail o s1) in (s2, l1 ++ l2, reply_of o s1)
   end.
 
 (* after the prologue `P 0 ; T 0 t ; PUB 0` at t = 1 s: announced once, sleeping *)
